@@ -81,6 +81,8 @@ def c_attempt(a):
 
 
 KNOWN_SLICE = "slice-sampler-after-drop"
+KNOWN_NAN = "slice-sampler-nan-start"      # no Coq counterpart: it is about hyper-parameter VALUES, outside the lengths model
+KNOWN_KEYS = (KNOWN_SLICE, KNOWN_NAN)
 
 
 def violation_key(o, key, msg):
@@ -92,6 +94,9 @@ def violation_key(o, key, msg):
     if (msg.startswith("ValueError") and "could not be broadcast" in msg and c.get("opts", {}).get("use_slice_sampler")
             and c["mode"] != "det" and "_get_samples_from_slice_sampler_" in (o.get("tb") or "")):
         return KNOWN_SLICE
+    if (msg.startswith("ValueError") and "X0 needs to evaluate to a real number" in msg and c.get("opts", {}).get("use_slice_sampler")
+            and "_get_samples_from_slice_sampler_" in (o.get("tb") or "")):
+        return KNOWN_NAN
     return "abort:" + msg.split(":")[0]
 
 
@@ -325,6 +330,20 @@ def tie(ctx, broken):
         else:
             broken.append(("refutation-replay:" + KNOWN_SLICE, "the witness of C16_slice_sampler_after_drop_refuted no longer aborts on the code "
                            f"(repaired?): {o['exc'] or 'run completed'} — update known_findings.d/C16.json and the theorem"))
+    bc = next((b for b in bases if b["cfg"].get("target") == "clip"), None)
+    if bc is not None:
+        c = copy.deepcopy(bc["cfg"])
+        c.setdefault("opts", {})["use_slice_sampler"] = True
+        c.update(faults=[1], upd_faults=[], upd_double=False, tag="witness:slice-sampler-nan-start")
+        o = F.run_faulted(c)
+        okw = KNOWN_NAN in [violation_key(o, k_, m_) for k_, m_ in o["violations"]]
+        ctx.oblige("refutation-replay:" + KNOWN_NAN, "correspondence", okw, str(o["exc"])[:200])
+        if okw:
+            ctx.violate(KNOWN_NAN, f"deterministic run on a saturated target (seed {c['seed']}, max_fun_evals {c['budget']}) with use_slice_sampler=True and ONE "
+                        f"LinAlgError injected at fit invocation 1: {o['exc']}", dict(kind="faulted_run", cfg=c, traceback=(o["tb"] or "")[-700:]))
+        else:
+            broken.append(("refutation-replay:" + KNOWN_NAN, f"the witness of the known finding {KNOWN_NAN} no longer aborts on the code (repaired?): "
+                           f"{o['exc'] or 'run completed'} — update known_findings.d/C16.json"))
     ctx.coverage["observations"] = dict(
         outside_property_range=obs,
         note="10 consecutive faults in one refit -> UnboundLocalError (res unbound); 6 consecutive faults on the 5-row first refit -> "
@@ -435,7 +454,7 @@ def search(ctx, broken):
         ctx.coverage["aimed_search"] = dict(regions=sorted(regions), why=why[:400], runs=len(cfgs[:360]))
         for o in F.run_pool(cfgs[:360], procs=12):
             for key, msg in o["violations"]:
-                if key != "unrelated-crash" and violation_key(o, key, msg) != KNOWN_SLICE:
+                if key != "unrelated-crash" and violation_key(o, key, msg) not in KNOWN_KEYS:
                     c = o["cfg"]
                     ctx.violate(violation_key(o, key, msg),
                                 f"{c['mode']} run (seed {c['seed']}, max_fun_evals {c['budget']}, options {c.get('opts', {})}) with LinAlgError injected at "
@@ -450,7 +469,7 @@ def search(ctx, broken):
         ctx.tier = old
     for o in F.run_pool(cfgs[:400], procs=12):
         for key, msg in o["violations"]:
-            if key != "unrelated-crash" and violation_key(o, key, msg) != KNOWN_SLICE:
+            if key != "unrelated-crash" and violation_key(o, key, msg) not in KNOWN_KEYS:
                 c = o["cfg"]
                 ctx.violate(violation_key(o, key, msg),
                             f"{c['mode']} run with faults {c['faults']} / update faults {c['upd_faults']}: {msg}", dict(kind="faulted_run", cfg=c))
